@@ -307,9 +307,16 @@ def relabel_string_literal_findings(case, queries: str, violations: List[Violati
     has_escape = bool(re.search(r'"[^"\n]*\\[nt][^"\n]*"', queries))
     if "frag.inline.on_interface" in dirty and has_inline_fragment_on_interface(case, queries):
         # D18: inline fragment on an interface inside an abstract selection
-        for v in violations:
-            if v.prop == "C01" and v.clause in ("key-exposed", "round-trip"):  # fields dropped - never a rejected response: that is a different failure
-                v.mech = "inline-fragment-on-interface-drops-fields"
+        dropped_ops: Set[str] = set()
+        for v in sorted(violations, key=lambda v_: 0 if v_.clause == "key-exposed" else 1):
+            if v.prop == "C01" and v.clause == "key-exposed":
+                # fields dropped (never a rejected response: that is a different failure), and only fields selected inside an interface-conditioned fragment
+                mk = re.search(r"response key '([^']+)' is carried by 0 fields", v.detail)
+                if mk and mk.group(1) in interface_fragment_keys(case, queries):
+                    v.mech = "inline-fragment-on-interface-drops-fields"
+                    dropped_ops.add(v.detail.split(" [", 1)[0])
+            elif v.prop == "C01" and v.clause == "round-trip" and v.detail.split(" [", 1)[0] in dropped_ops:
+                v.mech = "inline-fragment-on-interface-drops-fields"  # the dump of an object that lost those fields cannot reproduce the response
             elif v.prop == "C04" and v.clause == "generation-typed-refusal-on-valid-input" and "ParsingError" in v.mech and "not found in type" in v.detail:
                 v.mech = "inline-fragment-on-interface-parsing-error"
             elif v.prop == "C05" and (v.clause.startswith("rejects-k") or v.clause in ("rejects-null-at-nonnull", "annotation-image")):
